@@ -8,6 +8,7 @@ package time // import "go.starlark.net/lib/time"
 import (
 	"errors"
 	"fmt"
+	"math"
 	"sort"
 	"time"
 
@@ -469,6 +470,10 @@ func (t Time) Binary(op syntax.Token, y starlark.Value, side starlark.Side) (sta
 		case Duration:
 			if side == starlark.Right {
 				return nil, nil // duration - time is not defined
+			}
+			if time.Duration(y) == math.MinInt64 {
+				// -y overflows
+				return Time(x.Add(math.MaxInt64).Add(1)), nil
 			}
 			return Time(x.Add(time.Duration(-y))), nil
 		case Time:
